@@ -235,6 +235,13 @@ func c16ChildMain(args []string) {
 		}
 		return
 	}
+	if len(args) >= 1 && args[0] == "corpus-holder" {
+		// minimal members of the holder families (corpus/C16/holder.txt)
+		for _, l := range c16HolderCorpus() {
+			fmt.Println(l)
+		}
+		return
+	}
 	if len(args) >= 2 && args[0] == "render" {
 		// debugging aid: print the configuration file(s) and records of the case lines in a file
 		data, _ := os.ReadFile(args[1])
@@ -247,13 +254,25 @@ func c16ChildMain(args []string) {
 			if err != nil {
 				continue
 			}
+			if c.Kind == 2 && len(c.S) >= 2 {
+				fmt.Printf("# ---- component class %s decoded from the document\n%s", c.S[1], c16ShapeDoc(string(c.S[0])))
+				continue
+			}
+			if c.Kind == 3 {
+				if base, o, ok := c16FileShapeCase("/tmp/c16-render", c); ok {
+					text, _ := base.RenderWith(o)
+					fmt.Printf("# ---- a %s component given as %q\n%s", c.S[1], c.S[0], text)
+				}
+				continue
+			}
 			confs, derr := decodeConfigs(c.Kind, c.S)
 			if derr != nil {
 				fmt.Println("# undecodable case:", derr)
 				continue
 			}
 			for i, cf := range confs {
-				fmt.Printf("# ---- configuration %d\n%s", i+1, cf.Render())
+				text, _ := cf.RenderWith(c16CaseOpts(c))
+				fmt.Printf("# ---- configuration %d\n%s", i+1, text)
 				if len(args) >= 3 {
 					os.WriteFile(fmt.Sprintf("%s-%d.yml", args[2], i+1), []byte(cf.Render()), 0o644)
 					os.WriteFile(fmt.Sprintf("%s-%d.rec", args[2], i+1), []byte(strings.Join(c16Records(cf), "\n")+"\n"), 0o644)
